@@ -168,9 +168,43 @@ func c19Phase(out *vstat.Outcome, sc c19Scenario, addr string, up []bool, phase 
 		}
 	}
 	if primUp+backUp == 0 {
+		// concurrent requests for one URL while nothing is healthy: every one of them gets its 5xx promptly
+		for round := 0; round < 3; round++ {
+			const burst = 32
+			type res struct {
+				code int
+				err  string
+			}
+			done := make(chan res, burst)
+			uri := fmt.Sprintf("/c19/%s/burst%d", phase, round)
+			for g := 0; g < burst; g++ {
+				go func() {
+					r := do(c19Cl, reqSpec{Method: "GET", Addr: addr, Host: "c19.test", URI: uri})
+					done <- res{r.Code, r.Err}
+				}()
+			}
+			answered := 0
+			timeout := time.After(12 * time.Second)
+		collect:
+			for answered < burst {
+				select {
+				case r := <-done:
+					answered++
+					if r.err == "" && r.code < 500 {
+						out.Violate("C19", "no-server", "%s: no server is healthy but a request of a concurrent burst got status %d", phase, r.code)
+					}
+				case <-timeout:
+					break collect
+				}
+			}
+			if answered < burst {
+				out.Violate("C19", "no-server-hang", "%s: no server is healthy; %d of %d concurrent GET requests for one URL got no answer within 12 s", phase, burst-answered, burst)
+				break
+			}
+		}
 		// nothing may have reached any upstream
 		for i := 0; i < sc.N; i++ {
-			if n := len(c19Ups[i].logsFor(func(l *upLog) bool { return l.URI != "" && l.Method == "POST" && contains(l.URI, "/"+phase+"/") })); n != 0 {
+			if n := len(c19Ups[i].logsFor(func(l *upLog) bool { return l.URI != "" && (l.Method == "POST" || l.Method == "GET") && contains(l.URI, "/"+phase+"/") })); n != 0 {
 				out.Violate("C19", "no-server", "%s: no server is healthy but %s logged %d request(s)", phase, c19Ups[i].name, n)
 			}
 		}
